@@ -45,7 +45,7 @@ pub fn random_ptree(rng: &mut Rng, data: &[(f64, f64)], k: usize, style: usize) 
 
 // ---------------------------------------------------------------- weighted
 
-pub trait PairEst: Clone + std::fmt::Debug {
+pub trait PairEst: Clone + std::fmt::Debug + Default {
     const NAME: &'static str;
     fn new() -> Self;
     fn add(&mut self, a: f64, b: f64);
@@ -55,6 +55,8 @@ pub trait PairEst: Clone + std::fmt::Debug {
     fn from_iter_ref(v: &[(f64, f64)]) -> Self;
     fn extend_val(&mut self, v: &[(f64, f64)]);
     fn extend_ref(&mut self, v: &[(f64, f64)]);
+    fn from_iter_lazy(v: &[(f64, f64)]) -> Self;
+    fn extend_lazy(&mut self, v: &[(f64, f64)]);
 }
 fn acc(op: &str, stat: &'static str, val: Val) -> Acc { Acc { op: op.to_string(), stat, val } }
 
@@ -64,6 +66,8 @@ macro_rules! pair_ingest {
         fn from_iter_ref(v: &[(f64, f64)]) -> Self { v.iter().collect() }
         fn extend_val(&mut self, v: &[(f64, f64)]) { self.extend(v.iter().cloned()) }
         fn extend_ref(&mut self, v: &[(f64, f64)]) { self.extend(v.iter()) }
+        fn from_iter_lazy(v: &[(f64, f64)]) -> Self { v.iter().filter(|_| true).collect() }
+        fn extend_lazy(&mut self, v: &[(f64, f64)]) { self.extend(v.iter().cloned().filter(|_| true)) }
     };
 }
 
@@ -162,7 +166,7 @@ fn oracle_pairs(out: &mut Out, kind: &str, data: &[(f64, f64)], accs: &[Acc]) {
     out.o(kind, &[&pws(data), &stats.join(" ")]);
 }
 
-fn weights(rng: &mut Rng, n: usize, zero_pattern: usize) -> Vec<f64> {
+pub fn weights(rng: &mut Rng, n: usize, zero_pattern: usize) -> Vec<f64> {
     let mut w: Vec<f64> = (0..n).map(|_| if rng.unit() < 0.2 { 1.0 } else { 10f64.powf(rng.range(-6.0, 6.0)) }).collect();
     match zero_pattern {
         1 => if n > 0 { w[0] = 0.0 },                                   // first
@@ -175,7 +179,7 @@ fn weights(rng: &mut Rng, n: usize, zero_pattern: usize) -> Vec<f64> {
     w
 }
 
-fn weighted_case<E: PairEst>(out: &mut Out, t: &PTree, trace: Trace, rng: &mut Rng) {
+pub fn weighted_case<E: PairEst>(out: &mut Out, t: &PTree, trace: Trace, rng: &mut Rng) {
     if !out.next_case() { return; }
     let e: E = peval(out, t, trace, rng);
     let accs = pobserve(out, &e);
@@ -245,6 +249,14 @@ pub fn c08(out: &mut Out, tier: &str, rng: &mut Rng) {
             }
         }
     }
+    // chunks with equal means / equal weighted means, constant chunks, all-zero-weight chunks
+    for t in special_trees() {
+        for wp in 0..3 {
+            let pt = to_ptree(&t, &mut |i| match wp { 0 => 1.0, 1 => [2.0, 0.5, 1.0, 3.0][i % 4], _ => if i % 3 == 0 { 0.0 } else { 1.5 } });
+            weighted_case::<WeightedMean>(out, &pt, Trace::None, rng);
+            weighted_case::<WeightedMeanWithError>(out, &pt, Trace::None, rng);
+        }
+    }
     let plan: Vec<(usize, usize)> = if tier == "thorough" { vec![(50, 40), (1000, 20), (10_000, 6)] } else { vec![(50, 10), (1000, 5), (10_000, 1)] };
     for (n, count) in plan {
         for c in 0..count {
@@ -283,8 +295,33 @@ fn cov_case(out: &mut Out, t: &PTree, trace: Trace, rng: &mut Rng) {
     out.note(&format!("Covariance:n<={}", crate::props_mom::bucket(data.len())));
 }
 
+/// pair every observation of a tree with a second coordinate
+pub fn to_ptree(t: &Tree, second: &mut dyn FnMut(usize) -> f64) -> PTree {
+    fn go(t: &Tree, k: &mut usize, second: &mut dyn FnMut(usize) -> f64) -> PTree {
+        match t {
+            Tree::Leaf(v) => PTree::Leaf(v.iter().map(|x| { let w = second(*k); *k += 1; (*x, w) }).collect()),
+            Tree::Node(l, r) => { let a = go(l, k, second); let b = go(r, k, second); PTree::Node(Box::new(a), Box::new(b)) }
+        }
+    }
+    let mut k = 0;
+    go(t, &mut k, second)
+}
+
 pub fn c09(out: &mut Out, tier: &str, rng: &mut Rng) {
     let rhos = [-1.0, -0.9, -0.3, 0.0, 0.5, 0.999, 1.0];
+    // observations equal to the running means (leading origin, repeated leading pairs, centroid of the prefix)
+    for d in [vec![(0.0, 0.0), (1.0, 2.0), (3.0, -1.0)], vec![(2.0, 5.0), (2.0, 5.0), (2.0, 5.0), (4.0, 1.0)],
+              vec![(1.0, 5.0), (3.0, 1.0), (2.0, 3.0), (7.0, 7.0)], vec![(0.0, 0.0)], vec![(0.0, 0.0), (0.0, 0.0), (1.0, 1.0)],
+              vec![(1e9, -1e9), (1e9 + 2.0, -1e9 + 4.0), (1e9 + 1.0, -1e9 + 2.0), (1e9 + 5.0, -1e9)]] {
+        cov_case(out, &PTree::Leaf(d.clone()), Trace::All, rng);
+        if d.len() >= 2 { cov_case(out, &PTree::Node(Box::new(PTree::Leaf(d[..1].to_vec())), Box::new(PTree::Leaf(d[1..].to_vec()))), Trace::All, rng); }
+    }
+    for t in special_trees() {
+        for yp in 0..2 {
+            let pt = to_ptree(&t, &mut |i| if yp == 0 { [2.0, -1.0, 4.0, 0.5, 3.0][i % 5] } else { 1e6 + (i * i % 7) as f64 });
+            cov_case(out, &pt, Trace::None, rng);
+        }
+    }
     let reps = if tier == "thorough" { 6 } else { 2 };
     for n in 1..=10usize {
         for &rho in &rhos {
